@@ -37,6 +37,14 @@
                                          len(readyWorkers()) >= min()
      ETryUnready     any transition that would deactivate PoolReady gate PoolReadyExit:
                                          len(readyWorkers()) < min()
+     ENormalize      Add ListWorkers{state ""}: the LISTING of one round of the normalizer
+                     (NormalizingPoolState's goroutine, up to 5 rounds per activation,
+                     WorkerCheckInterval / PoolPause apart). ListWorkersState's default
+                     branch hands out EVERY tracked worker - initing or with an rpc client,
+                     with or without (recent) errors. The round then requests
+                       for ii := len(existing); ii < min()+Warm && ii < Max; ii++
+                     ForkWorker mutations: [norm_forks] of them, each an EForkReq that is
+                     gated, started and completed like any other.
      EOther          anything else
 
    readyWorkers(): tracked, rpc client attached, no recent error, mirrored
@@ -48,7 +56,7 @@
 From Coq Require Import List NArith Bool Arith.
 Import ListNotations.
 
-Record cfg := { c_min : N; c_max : N; c_errkill : N }.
+Record cfg := { c_min : N; c_max : N; c_errkill : N; c_warm : N }.
 
 Record fixes := {
   fx_insert_gate : bool;  (* SetWorkerEnter refuses a NEW address when len(workers) >= Max *)
@@ -91,6 +99,7 @@ Inductive event :=
 | EErrsExpire (k : nat)
 | ETryReady
 | ETryUnready
+| ENormalize
 | EOther.
 
 Record st := {
@@ -171,6 +180,23 @@ Definition ready (s : st) : N :=
 (* what ready can be at most, whatever the mirrors say *)
 Definition ready_bound (s : st) : N :=
   N.of_nat (length (filter (fun p => is_clean (snd p)) (s_workers s))).
+
+(* ---- the normalizer *)
+
+(* the size a round brings the pool up to: min()+Warm capped by Max *)
+Definition norm_target (c : cfg) : N := N.min (min_eff c + c_warm c) (c_max c).
+
+(* len(existing), existing = Workers(ctx, ""): all tracked workers *)
+Definition listing (s : st) : N := tracked s.
+
+(* the ForkWorker mutations one round requests after its listing (N subtraction
+   truncates at 0: nothing is requested when the pool is at or above the target) *)
+Definition norm_forks (c : cfg) (s : st) : N := norm_target c - listing s.
+
+(* what an accepted event hands to the goroutine that queued it: the number of
+   fork requests that follow *)
+Definition requests (c : cfg) (s : st) (e : event) : N :=
+  match e with ENormalize => norm_forks c s | _ => 0%N end.
 
 Definition rem (k : nat) (l : list nat) : list nat := filter (fun x => negb (Nat.eqb x k)) l.
 Definition has (k : nat) (l : list nat) : bool := existsb (Nat.eqb k) l.
@@ -262,6 +288,7 @@ Definition effect (fx : fixes) (c : cfg) (s : st) (e : event) : st :=
                                w_delivered := 0 |})
   | ETryReady => set_poolready s true
   | ETryUnready => set_poolready s false
+  | ENormalize => s
   | EOther => s
   end.
 
@@ -281,6 +308,19 @@ Fixpoint trace_from (fx : fixes) (c : cfg) (s : st) (evs : list event) : list st
   | e :: r => s :: trace_from fx c (fst (step fx c s e)) r
   end.
 
+(* forks for the bootstrap keys [ks]: each requested and started at once, then
+   all completions *)
+Definition burst_keys (ks : list nat) : list event :=
+  flat_map (fun i => [EForkReq; EForking i]) ks ++ map ESetIns ks.
+
 (* k fork requests, each started at once, then all k completions *)
-Definition burst (k : nat) : list event :=
-  flat_map (fun i => [EForkReq; EForking i]) (seq 1 k) ++ map ESetIns (seq 1 k).
+Definition burst (k : nat) : list event := burst_keys (seq 1 k).
+
+(* one whole round of the normalizer run from [s] with nothing else going on:
+   the listing, then the forks it requests (bootstrap keys taken from [ks]) *)
+Definition norm_round (c : cfg) (s : st) (ks : list nat) : list event :=
+  ENormalize :: burst_keys (firstn (N.to_nat (norm_forks c s)) ks).
+
+(* the forks started by an event list *)
+Definition forkings (evs : list event) : nat :=
+  length (filter (fun e => match e with EForking _ => true | _ => false end) evs).
